@@ -7,6 +7,13 @@ const SYM = [
   // characters that need escaping when the text is printed as a string literal
   ['BSL', '\\', '\\'], ['DQ', '"', '"'],
 ];
+// less usual characters (second alphabet, shorter strings): none of them is whitespace for the JSX rule except the
+// characters an entity decodes to
+const SYM_X = [
+  ['a', 'a', 'a'], ['SP', ' ', ' '], ['LF', '\n', '\n'],
+  ['FF', '\f', '\f'], ['VT', '\v', '\v'], ['LS', '\u2028', '\u2028'], ['PS', '\u2029', '\u2029'], ['ZWSP', '\u200b', '\u200b'], ['BOM', '\ufeff', '\ufeff'],
+  ['ASTRAL', '\u{1f600}', '\u{1f600}'], ['COMB', 'e\u0301', 'e\u0301'], ['&#10;', '&#10;', '\n'], ['&#32;', '&#32;', ' '], ['&#x9;', '&#x9;', '\t'], ['&#x1f600;', '&#x1f600;', '\u{1f600}'], ['&bogus;', '&bogus;', '&bogus;'], ['LT', '&lt;', '<'], ['BRACE', '&#123;', '{'],
+];
 // attribute strings are delimited by double quotes: everything but DQ
 const SYM_ATTR = SYM.filter((x) => x[0] !== 'DQ');
-module.exports = { SYM, SYM_ATTR };
+module.exports = { SYM, SYM_ATTR, SYM_X };
